@@ -6,7 +6,14 @@ stdout JSON list, one entry per case:
   {"new": "ok" | exc-kind,
    "animate": [{"status": "ok" | exc-kind, "events": [[row, text], ...]}],
    "snap": {"buffer": [...], "states": [[...12 fields...]], "keys": [...]},
-   "ticks": [{"status": "ok" | exc-kind, "events": [[row, text], ...], "snap": {...}, "sleeps": n}]}
+   "ticks": [{"status": "ok" | exc-kind, "events": [[row, text], ...], "snap": {...}, "sleeps": n}],
+   "cross": [{"by": operation, "changed": "peer" | "main", "before": {...}, "after": {...}}]}
+A case may carry "between": {"k": [["line", row, text] | ["write", col, row, text] | ["clear"], ...]}: other LCD calls made just
+before tick number k; that tick's entry then has "pre" = the snapshot after those calls (else null).
+A case may carry "peer": {"cols", "rows", "anims": [...], "tick_before": [k, ...]}: a second display created before the
+main one.  Its first animation is started before the main display's animate calls, the others after them, and it is
+ticked (with the same time) just before the main display's ticks number k.  "cross" lists every operation on one of the
+two displays across which the buffer or the animation states of the OTHER one changed.
 Every assignment  lcd.buffer[r] = s  is recorded through a list subclass (the object is otherwise
 the real one); every call of time.sleep (hence of Reduino.Utils.sleep) is counted, never executed."""
 import json
@@ -56,8 +63,19 @@ def kind(e):
     return type(e).__name__
 
 
+def psnap(lcd):
+    return {"buffer": list(lcd.buffer), "states": [[getattr(s, f) for f in FIELDS] for s in lcd.animations.values()]}
+
+
 def run_case(c):
     out = {"animate": [], "ticks": []}
+    peer = None
+    if c.get("peer"):
+        try:
+            peer = LCD(i2c_addr=0x26, cols=c["peer"]["cols"], rows=c["peer"]["rows"])
+        except Exception as e:  # noqa
+            out["new"] = "peer:" + kind(e)
+            return out
     try:
         if c.get("i2c"):
             lcd = LCD(i2c_addr=0x27, cols=c["cols"], rows=c["rows"])
@@ -69,11 +87,36 @@ def run_case(c):
     out["new"] = "ok"
     log = []
     lcd.buffer = RecBuffer(lcd.buffer, log)
-    for a in c["anims"]:
+    pc = c.get("peer")
+    cross = []
+    out["cross"] = cross
+
+    def guarded(other, changed, by, op):
+        """run op(); report when the display `other` (the one NOT operated on) changed across it"""
+        if other is None:
+            return op()
+        before = psnap(other)
+        try:
+            return op()
+        finally:
+            after = psnap(other)
+            if before != after:
+                cross.append({"by": by, "changed": changed, "before": before, "after": after})
+
+    def peer_op(by, op):
+        try:
+            guarded(lcd, "main", by, op)
+        except Exception as e:  # noqa
+            cross.append({"by": by, "changed": "peer", "before": "no exception", "after": kind(e)})
+
+    if pc:
+        for i, a in enumerate(pc["anims"][:1]):
+            peer_op(f"peer.animate #{i}", lambda a=a: peer.animate(a[0], a[1], a[2], speed_ms=a[3], loop=a[4]))
+    for i, a in enumerate(c["anims"]):
         del log[:]
         n0 = len(SLEEPS)
         try:
-            lcd.animate(a[0], a[1], a[2], speed_ms=a[3], loop=a[4])
+            guarded(peer, "peer", f"main.animate #{i}", lambda a=a: lcd.animate(a[0], a[1], a[2], speed_ms=a[3], loop=a[4]))
             st = "ok"
         except Exception as e:  # noqa
             st = kind(e)
@@ -81,8 +124,32 @@ def run_case(c):
             log.append(["*", list(lcd.buffer)])
             lcd.buffer = RecBuffer(lcd.buffer, log)
         out["animate"].append({"status": st, "events": [list(x) for x in log], "sleeps": len(SLEEPS) - n0})
+    if pc:
+        for i, a in enumerate(pc["anims"][1:]):
+            del log[:]
+            peer_op(f"peer.animate #{i + 1}", lambda a=a: peer.animate(a[0], a[1], a[2], speed_ms=a[3], loop=a[4]))
     out["snap"] = snap(lcd)
-    for now in c["nows"]:
+    for k, now in enumerate(c["nows"]):
+        if pc and k in pc.get("tick_before", []):
+            del log[:]
+            peer_op(f"peer.tick({now}) before main tick #{k}", lambda now=now: peer.tick(now))
+        pre = None
+        ops = (c.get("between") or {}).get(str(k))
+        if ops:
+            # other LCD calls between two ticks (the script's own writes): never a reason for tick to raise
+            for op in ops:
+                try:
+                    if op[0] == "line":
+                        lcd.line(op[1], op[2])
+                    elif op[0] == "write":
+                        lcd.write(op[1], op[2], op[3])
+                    elif op[0] == "clear":
+                        lcd.clear()
+                except Exception as e:  # noqa
+                    out.setdefault("between_errors", []).append([k, op, kind(e)])
+            if not isinstance(lcd.buffer, RecBuffer):
+                lcd.buffer = RecBuffer(lcd.buffer, log)
+            pre = snap(lcd)
         del log[:]
         n0 = len(SLEEPS)
         t0 = time.perf_counter()
@@ -90,9 +157,9 @@ def run_case(c):
             if c.get("tick_none") and now == 0:
                 lcd.tick()                      # now_ms=None -> 0
             elif c.get("tick_kw"):
-                lcd.tick(now_ms=now)
+                guarded(peer, "peer", f"main.tick({now}) #{k}", lambda now=now: lcd.tick(now_ms=now))
             else:
-                lcd.tick(now)
+                guarded(peer, "peer", f"main.tick({now}) #{k}", lambda now=now: lcd.tick(now))
             st = "ok"
         except Exception as e:  # noqa
             st = kind(e)
@@ -100,7 +167,7 @@ def run_case(c):
             log.append(["*", list(lcd.buffer)])
             lcd.buffer = RecBuffer(lcd.buffer, log)
         out["ticks"].append({"status": st, "events": [list(x) for x in log], "snap": snap(lcd),
-                             "sleeps": len(SLEEPS) - n0, "wall": time.perf_counter() - t0})
+                             "sleeps": len(SLEEPS) - n0, "wall": time.perf_counter() - t0, "pre": pre})
         if st != "ok":
             break
     return out
